@@ -310,7 +310,7 @@ def run_dep(ctx: Ctx) -> None:
 
 # ------------------------------------------------------------------------------------------ (b) generators
 
-S_IDS = [1, 2, 3, 4]
+S_IDS = [1, 2, 3, 4, 5]
 P_IDS = [11, 12, 13]
 LABELS = ['hash.s', 'hash.p', 'rename.s', 'rename.p', 'mkdir', 'pre.s', 'pre.p', 'post.s', 'post.p', 'unpack2', 'copytree',
           'cachedcopy', 'diff.0', 'diff.1'] + [f'fetch.{w}.{fb}.{i}' for w in 'sp' for fb in (0, 1) for i in (0, 5)]
